@@ -152,6 +152,26 @@ Proof.
   - exfalso. apply (sector_no_overlap sc Hsc y Or t); [rewrite Eops; exact Htl|]. rewrite Ey. exact Os.
 Qed.
 
+(* 4. equivalent directions have ONE representative strictly inside the sector: if r maps x and s maps the
+   equivalent g * x strictly inside, the two images are the same direction -- whatever rule picks r and s *)
+Theorem sector_representative_unique sc : In sc (List.concat all_sector_certs) ->
+  forall (x : Rv) g r s, In g (sc_ops sc) -> In r (sc_ops sc) -> In s (sc_ops sc) ->
+  in_open_cone (sc_N sc) (ract ROps (rtoR r) x) ->
+  in_open_cone (sc_N sc) (ract ROps (rtoR s) (ract ROps (rtoR g) x)) ->
+  ract ROps (rtoR s) (ract ROps (rtoR g) x) = ract ROps (rtoR r) x.
+Proof.
+  intros Hsc x g r s Hg Hr Hs Or Os.
+  destruct (sc_group_facts sc Hsc) as [Hu [Hc _]].
+  pose proof (kunit_sound _ g Hu Hg) as Ug. pose proof (kunit_sound _ s Hu Hs) as Us.
+  unfold kclosed in Hc. rewrite forallb_forall in Hc. specialize (Hc s Hs). rewrite forallb_forall in Hc. specialize (Hc g Hg).
+  unfold kmem in Hc. apply existsb_exists in Hc. destruct Hc as [t [Ht Et]].
+  apply kr_eqb_sound in Et. rewrite rtoR_kmul in Et.
+  assert (E : ract ROps (rtoR t) x = ract ROps (rtoR s) (ract ROps (rtoR g) x)).
+  { rewrite <- (ract_req _ _ x Et). apply ract_mul; assumption. }
+  rewrite <- E in Os |- *.
+  apply ract_req. exact (sector_unique_operation sc Hsc x r t Hr Ht Or Os).
+Qed.
+
 (* the closed-cone test implies the code's tolerance test for every positive tolerance *)
 Lemma in_cone_in_sector (N : list kvec) (x : Rv) (tol : R) : 0 < tol -> in_cone N x ->
   in_sector ROps tol (map vtoR N) x = true.
